@@ -61,7 +61,10 @@ def gen_history(rng, tree, nops):
             ref_delete(ref, list(p), rec)
         elif r < 0.8:
             rec = rng.random() < 0.5
-            ops.append({"op": "pop", "pos": list(p), "xp": xp, "rec": rec, "d": "D"})
+            cur = X.get_at(ref, p)
+            # the default may coincide with the stored value (None leaf + implicit default, '' + '')
+            dd = rng.choice(["D", None, cur if not isinstance(cur, (dict, list)) else "D", cur if not isinstance(cur, (dict, list)) else None])
+            ops.append({"op": "pop", "pos": list(p), "xp": xp, "rec": rec, "d": dd})
             ref_delete(ref, list(p), rec)
         else:
             v = copy.deepcopy(rng.choice(VALUES))
